@@ -44,6 +44,7 @@ class SharedModel:
         self.sites: List[Site] = []
         self.locked_regions: Dict[str, List[ast.With]] = {}
         self.bad_lock_exprs: List[Tuple[FuncInfo, ast.With, str]] = []
+        self.dynamic_lock_exprs: List[Tuple[FuncInfo, ast.With, str, bool]] = []
         for fi in self.funcs:
             self._scan_function(fi)
         self.callers: Dict[str, List[Tuple[FuncInfo, ast.Call, bool]]] = {}
@@ -84,6 +85,8 @@ class SharedModel:
                 cn = call_name(val)
                 if cn and cn[-1] in ("Lock", "RLock"):
                     found.append((name, cn[-1], self.cls.module.assign_nodes[name]))
+        if not found:
+            return (None, None, None)  # C07 reports it; the cache rules of other properties do not depend on the lock
         if len(found) != 1:
             raise AnalysisError(f"{self.cname}: expected exactly one class/module-level lock, found {[f[0] for f in found]}")
         return found[0]
@@ -104,7 +107,7 @@ class SharedModel:
     def is_lock_expr(self, node: ast.AST) -> Optional[bool]:
         """True: the shared lock; False: some other (fresh) lock expression; None: not a lock."""
         ch = attr_chain(node)
-        if ch and ch[-1] == self.lock_name and (len(ch) == 1 or ch[0] in (self.cname, "cls", "self")):
+        if self.lock_name is not None and ch and ch[-1] == self.lock_name and (len(ch) == 1 or ch[0] in (self.cname, "cls", "self")):
             return True
         if isinstance(node, ast.Call):
             cn = call_name(node)
@@ -198,6 +201,20 @@ class SharedModel:
                         self.locked_regions.setdefault(fi.where, []).append(st)
                     elif v is False:
                         self.bad_lock_exprs.append((fi, st, unparse(item.context_expr)))
+                    elif isinstance(item.context_expr, ast.Name) and item.optional_vars is None:
+                        # a lock object obtained at run time: which bindings of the local can reach the `with`?
+                        nm = item.context_expr.id
+                        fresh = lookup = False
+                        for n2 in walk_no_nested(fi.node):
+                            if isinstance(n2, (ast.Assign, ast.AnnAssign)) and n2.value is not None:
+                                tg = n2.targets if isinstance(n2, ast.Assign) else [n2.target]
+                                if any(isinstance(t, ast.Name) and t.id == nm for t in tg):
+                                    if self.is_lock_expr(n2.value) is False:
+                                        fresh = True
+                                    elif any(isinstance(x, ast.Attribute) and x.attr in self.class_containers for x in ast.walk(n2.value)):
+                                        lookup = True
+                        if fresh or lookup:
+                            self.dynamic_lock_exprs.append((fi, st, nm, fresh))
             if isinstance(st, (ast.Assign, ast.AugAssign, ast.AnnAssign)):
                 tgts = st.targets if isinstance(st, ast.Assign) else [st.target]
                 for t in tgts:
